@@ -15,10 +15,10 @@ RULE = ("requests are drawn from VERIF_SEED: objective class x starting point/of
         "outcome, trace-length bucket)")
 CORR_ONLY = ["convergence 'within the distance implied by the tolerance' (no theorem: Nelder-Mead has no general convergence "
              "proof): decided by the oracle on the implementation's output. 1-D (Find_Minimum/Find_Maximum on quadratic, quartic-flat, "
-             "rational, asymmetric, Lennard-Jones-like, cosh-like bowls): |x - x*| <= 4.25*(tol*|x*| + 2^-52) or f(x) within 64 running "
+             "rational, asymmetric, Lennard-Jones-like, cosh-like bowls): |x - x*| <= 2*(tol*|x*| + 2^-52)/(1 - 2*tol) + 2^-50*|x*| (Brent's own stopping bound; worst observed 1.24 of the 2) or f(x) within 64 running "
              "rounding-error bounds of the minimum. n-D quadratic bowls (proper simplex of ndim+1 vertices): f(result) - f* <= "
-             "512*ftol*(|f(result)| + |f*| + 1e-10 + largest initial excess) + rounding; enforced for dims 1-2 with step/distance >= 0.03 "
-             "(calibrated: worst 33/512 over 4269 runs); the failures for step/distance < 0.03 and for dims >= 3 are the genuine known "
+             "256*ftol*(|f(result)| + |f*| + 1e-10 + largest initial excess) + rounding; enforced for dims 1-2 with step/distance >= 0.03 "
+             "(empirical constant: worst 156/256 over 22401 runs; with 64, 0.05% of the runs exceed it by up to 2.4x - premature stops of the fractional stopping rule); the failures for step/distance < 0.03 and for dims >= 3 are the genuine known "
              "findings C11-nm-premature-termination / C11-nm-collapse-3d (emitted under two fixed clauses)",
              "cosh-like bowls: evaluated by the harness only (the rational model answers undef), oracle clauses only",
              "brent_in_bracket under IEEE rounding (theorem brent_in_bracket is for exact arithmetic; bookkeeping half for every rnd)",
@@ -438,7 +438,7 @@ def gen_1d(rng, n, R, ctx):
             x0 = rng.uniform(-6, 6); h = rng.choice([1, -1]) * logu(rng, -3, 1)
         else:
             x0 = ctr + rng.choice([1, -1]) * 10.0 ** od; h = rng.choice([1, -1]) * 10.0 ** hd
-        if rng.random() < 0.1:
+        if rng.random() < 0.1 and cls != "lj":
             x0 = float(round(x0 * 8)) / 8; h = float(round(h * 8) or 1) / 8   # dyadic: ties are possible
         xl, xr = x0, x0 + h
         if xl == xr:
@@ -476,6 +476,37 @@ def gen_1d(rng, n, R, ctx):
         R.append(req_1d("c11.min", xl, xr, tol, q, meta_tokens("quad1", [0.0], 0.0) + ["fixed=1"]))
     R.append(req_1d("c11.min", 0.0, 1.0, 3e-8, [k(1.0)], meta_tokens("const")))           # constant objective
     R.append(req_1d("c11.max", 0.0, 1.0, 3e-8, p_quad1(1.0, 1.0, 0.0) + ["neg"], meta_tokens("quad1", [1.0], 0.0)))
+
+
+def gen_1d_origin(rng, n, R):
+    """minimiser AT the origin: there tol1 = tol*|x| + ZEPS shrinks to ZEPS, so the requested accuracy is absolute
+    (2^-52) whatever the scale of the start - starting abscissae and steps at both ends of the stated range 1e-3..1e3"""
+    classes = ["pow4", "quad1", "pow4", "ratbowl", "pw", "pow4", "cosh", "quad1"]
+    for i in range(n):
+        cls = classes[i % len(classes)]
+        od = rng.choice([rng.uniform(-3, -2), rng.uniform(2, 3), rng.uniform(-3, 3)])
+        hd = rng.choice([rng.uniform(2, 3), rng.uniform(-3, -2), rng.uniform(-3, 3)])
+        off = rng.choice([0.0, 0.0, 1.0, dy(rng, -8, 8)])
+        if cls == "pow4" and rng.random() < 0.6:
+            # smallest start with the widest step: the longest way for the bracket to shrink (quartic: flat, slow parabolas)
+            od, hd, off = rng.uniform(-3, -2), rng.uniform(2, 3), 0.0
+        if cls == "quad1":
+            prog, meta = p_quad1(0.0, logu(rng, -2, 2), off), meta_tokens(cls, [0.0], off)
+        elif cls == "pow4":
+            prog, meta = p_pow4(0.0, logu(rng, -2, 2), off), meta_tokens(cls, [0.0], off)
+        elif cls == "ratbowl":
+            prog, meta = p_ratbowl(0.0, logu(rng, -1, 2), rng.choice([0.0, 0.25, logu(rng, -3, 1)]), off), meta_tokens(cls, [0.0], off)
+        elif cls == "pw":
+            prog, meta = p_pw(0.0, logu(rng, -1, 1.5), logu(rng, -1, 1.5), off), meta_tokens(cls, [0.0], off)
+        else:
+            od, hd = min(od, 1.3), min(hd, 1.0)
+            prog, meta = p_cosh(0.0, rng.choice([1.0, 0.5, logu(rng, -1.5, 0.5)])), meta_tokens(cls, [0.0], 1.0)
+        x0 = rng.choice([1, -1]) * 10.0 ** od
+        h = rng.choice([1, -1]) * 10.0 ** hd
+        tol = rng.choice([3e-8, 3e-8, logu(rng, -12, -3)])
+        op = "c11.max" if i % 6 == 5 else "c11.min"
+        R.append(req_1d(op, x0, x0 + h, tol, prog + (["neg"] if op == "c11.max" else []),
+                        meta + ["od=%d" % math.floor(od), "hd=%d" % math.floor(hd), "origin=1"]))
 
 
 def req_nd(op, ftol, body, prog, meta):
@@ -779,6 +810,7 @@ def generate(tier, seed, ctx):
     R = []
     if tier == "thorough":
         gen_1d(rng, 2400, R, ctx)
+        gen_1d_origin(rng, 480, R)
         gen_nd(rng, 900, R, ctx)
         gen_multi(rng, 400, R)
         gen_seq(rng, 8, 24, R)
@@ -786,6 +818,7 @@ def generate(tier, seed, ctx):
         gen_re(rng, 40, R)
     else:
         gen_1d(rng, 400, R, ctx)
+        gen_1d_origin(rng, 96, R)
         gen_nd(rng, 100, R, ctx)
         gen_multi(rng, 60, R)
         gen_seq(rng, 2, 5, R)
@@ -863,7 +896,11 @@ def conv_1d(R, x, ctx):
         return None
     best = None
     for xs in cands:
-        D = 4 * (Fraction(tol) * abs(Fraction(xs)) + Fraction(1, 2 ** 52)) * Fraction(17, 16)
+        # Brent stops when max(x-a, b-x) <= tol2 = 2*(tol*|x| + ZEPS) with the minimiser inside [a,b]:
+        # |x - x*| <= 2*(tol*|x*| + 2^-52)/(1 - 2*tol)  (|x| <= |x*| + |x - x*|); plus 2^-50 |x*| for the roundings of x
+        if not (Fraction(tol) < Fraction(1, 4)):
+            return None
+        D = 2 * (Fraction(tol) * abs(Fraction(xs)) + Fraction(1, 2 ** 52)) / (1 - 2 * Fraction(tol)) + abs(Fraction(xs)) / 2 ** 50
         dist = abs(Fraction(x) - Fraction(xs))
         if dist <= D:
             bump(ctx, "conv1d.within-distance")
@@ -881,7 +918,8 @@ def conv_1d(R, x, ctx):
         x, best[0], best[1], sf(v - fs), sf(64 * (e + (es or 0))))
 
 
-KCONV_ND = 512          # calibrated: worst observed 33 over 4269 bowl runs (dims 1-2, step/distance >= 0.03), x16
+KCONV_ND = 256          # empirical (the stopping rule bounds the spread of the vertex values, not the excess over the minimum):
+                        # worst observed 156 over 22401 bowl runs (dims 1-2, step/distance >= 0.03); 64 is exceeded by 0.05% of the runs
 SD_MIN = 0.03
 CL_PREMATURE = ("minimize: stops far from the minimiser of a quadratic bowl when the initial simplex is much smaller than "
                 "its distance to the minimiser (fractional function-value stopping rule)")
@@ -921,6 +959,8 @@ def conv_nd(R, I, ctx):
     return (CL_PREMATURE if small else CL_COLLAPSE if nd >= 3 else CL_CONV), msg
 
 
+CL_EXIT_BOWL = ("terminates the process (iteration-limit diagnostic) on an objective of the stated bowl classes instead of "
+                "returning a point")
 CL_HISTORY = "minimize: the result depends on earlier runs of the same Minimization object"
 CL_NMAX_RETURN = ("minimize: returns an unconverged point where the evaluation limit (NMAX exceeded) must stop with a "
                   "diagnostic")
@@ -983,8 +1023,8 @@ def compare_seq(R, rq, impl, model, ctx):
                 sub += corr_nd(Rm, fr, mo, ctx)
             elif tag(mo) == "err":
                 sub += nmax_return(Rm, fr, ctx)
-        elif tag(fr) == "err" and tag(mo) == "ok":
-            sub.append(fail("prop", "iteration-limit exit (diagnostic) on a request where the model converges", ""))
+        elif tag(fr) == "err":
+            sub.append(fail("prop", CL_EXIT_BOWL, "class %s, ftol %r; model: %s" % (Rm["cls"], Rm["ftol"], tag(mo))))
         for f in sub:
             if "restart with the object's own simplex" not in f.get("detail", ""):
                 f["detail"] = "member %d (fresh object%s): %s" % (i, ", given a copy of the aliased argument" if Rm.get("restart") else "", f.get("detail", ""))
@@ -1050,12 +1090,18 @@ def compare(rq, impl, model, ctx):
     if ti == "err":
         bump(ctx, "exit.diagnostic")
         if tm == "err":
-            bump(ctx, "exit.diagnostic.model-agrees")
+            bump(ctx, "exit.diagnostic.model-agrees")      # a statistic only: the model copies ITMAX / NMAX from the source
             ctx["nontrivial"].add((op, R["cls"], "exit"))
+        # the property promises a point for every objective of the stated classes, from any start and scale, at the stated
+        # tolerances: terminating the process there is a violation whatever the model (which mirrors the limit) does
+        stated_tol = 0 < (R.get("tol") if "tol" in R else R.get("ftol", 0))
+        bowl = (R["cls"] in BOWL_1D + BOWL_ND + ("nested",)) and "fixed" not in R["meta"] and stated_tol
+        if bowl and R["cls"] in BOWL_ND and len(simplex_of(R)) != len(simplex_of(R)[0]) + 1:
+            bowl = False          # not a proper simplex: outside the documented use of the general overload
+        if bowl:
+            out.append(fail("prop", CL_EXIT_BOWL, "class %s, tolerance %r; model: %s" % (R["cls"], R.get("tol", R.get("ftol")), tm)))
         elif tm == "ok":
-            bowl = R["cls"] in BOWL_1D + BOWL_ND + ("nested",)
-            out.append(fail("prop" if bowl else "corr",
-                            "iteration-limit exit (diagnostic) on a request where the model converges", ""))
+            out.append(fail("corr", "iteration-limit exit (diagnostic) on a request where the model converges", ""))
         return out
     if ti != "ok":
         return [fail("corr", "unknown harness tag " + ti)]
